@@ -200,6 +200,13 @@ def classify (actionOf : ActionOf α) (p : Parsed α) : Option StackStep :=
   else if p.name == S "stack" then some (.stack (actionOf p))
   else none
 
+/-- the stack related meaning of a STEP: only an elementary step can be a stack operator; a nested
+pipeline (a macro whose text starts with `push`, `pop` or `stack`) carries that name without
+being one -/
+def stackClass (actionOf : ActionOf α) : Op α → Option StackStep
+  | .mk node [] => classify actionOf node.params
+  | .mk _ (_ :: _) => none
+
 structure PState (α : Type) where
   cols : Stack.Cols α
   data : List (Coor α)
@@ -228,7 +235,7 @@ def runFwd (sem : LeafSem α) (nan : α) (actionOf : ActionOf α) : List (Op α)
     let p := step.node.params
     if p.flagSet (S "omit_fwd") then runFwd sem nan actionOf rest s else
     let s' :=
-      match classify actionOf p with
+      match stackClass actionOf step with
       | some (.legacyPush f) => let r := Stack.legacyPush s.cols s.data f; s.record r.1 r.2.1 r.2.2
       | some (.legacyPop f) => let r := Stack.legacyPop nan s.cols s.data f; s.record r.1 r.2.1 r.2.2
       | some (.stack (some a)) => let r := Stack.fwd nan s.cols s.data a; s.record r.1 r.2.1 r.2.2
@@ -243,7 +250,7 @@ def runInv (sem : LeafSem α) (nan : α) (actionOf : ActionOf α) : List (Op α)
     let s := runInv sem nan actionOf rest s
     let p := step.node.params
     if p.flagSet (S "omit_inv") then s else
-    match classify actionOf p with
+    match stackClass actionOf step with
     | some (.legacyPush f) => let r := Stack.legacyPop nan s.cols s.data f; s.record r.1 r.2.1 r.2.2
     | some (.legacyPop f) => let r := Stack.legacyPush s.cols s.data f; s.record r.1 r.2.1 r.2.2
     | some (.stack (some a)) => let r := Stack.inv nan s.cols s.data a; s.record r.1 r.2.1 r.2.2
